@@ -16,14 +16,15 @@ EXPLANATION = ("Deductive: xray_wavelength/xray_energy (E*lambda == hc 1e7, roun
 
 
 def units(tier):
-    return ([A.U_XWAVELENGTH, A.U_XENERGY, A.U_XROUNDTRIP] + A.U_SCATTERING_FACTORS + A.U_XRAY_SLD + A.U_INDEX_OF_REFRACTION + A.U_FXRAY_KEYS + [F.U_FORMULA_XRAY_SLD, K.L_REGISTRATION]) + [W.U_PKG[5], W.U_FROM_ATOMS[1], A.U_FXRAYATQ, A.U_XRAY_F0, A.U_XRAY_ELEMENT_SYMBOL, A.U_XRAY_SLD_METHOD]
+    return (([A.U_XWAVELENGTH, A.U_XENERGY, A.U_XROUNDTRIP] + A.U_SCATTERING_FACTORS + A.U_XRAY_SLD + A.U_INDEX_OF_REFRACTION + A.U_FXRAY_KEYS + [F.U_FORMULA_XRAY_SLD, K.L_REGISTRATION]) + [W.U_PKG[5], W.U_FROM_ATOMS[1], A.U_FXRAYATQ, A.U_XRAY_F0, A.U_XRAY_ELEMENT_SYMBOL, A.U_XRAY_SLD_METHOD]) + F.U_FORMULA_OF_FORMULA + F.U_INIT
 
 
 def runner_tasks(tier):
     return [{"module": "c05", "task": "tables", "kind": "eval", "clause": "f1/f2 at and between all table nodes; NaN outside"},
             {"module": "c05", "task": "f0", "kind": "eval", "clause": "f0 coefficients and limits, all 211 entries"},
             {"module": "c05", "task": "sld", "kind": "bounded", "clause": "compound SLD, relations, reflectivity"},
-            {"module": "c09", "task": "steps", "name": "first-touch steps", "kind": "eval", "arg": {"groups": ["xray"]}, "clause": "every first touch of the x-ray data serves the canonical data", "timeout": 1500}]
+            {"module": "c09", "task": "steps", "name": "first-touch steps", "kind": "eval", "arg": {"groups": ["xray"]}, "clause": "every first touch of the x-ray data serves the canonical data", "timeout": 1500},
+            {"module": "stateful", "task": "C05", "name": "stateful C05", "kind": "bounded", "clause": "energy / wavelength / Q in every numeric type and array layout"}]
 
 
 REPLAY = {"module": "c05", "task": "replay"}
